@@ -34,11 +34,15 @@ func swarmGen(plan *Tape, thorough bool) *GenCfg {
 	c.ExecStages = plan.Draw(2) > 0
 	c.Local = plan.Draw(3) == 1
 	c.Preflight = plan.Draw(3) == 1
-	c.NestedArrayMaps = true
+	// Nested map calls stay out of the generator (only the family templateNestedProg
+	// has them): with several instances of the map-calling pipeline, or one-element
+	// inner collections next to longer ones, martian fails to match forks
+	// (DESIGN.md section 14, D1/D5/D7) - found again by a sweep when they were on.
+	c.NestedArrayMaps = false
 	// experiments only: switch excluded constructs back on (DESIGN.md section 14)
 	if x := os.Getenv("VERIF_ALLOW"); x != "" {
 		c.NestedMaps = strings.Contains(x, "nested,") || x == "nested"
-		c.NestedArrayMaps = !strings.Contains(x, "nonestedarrays")
+		c.NestedArrayMaps = strings.Contains(x, "nestedarrays")
 		c.InvariantInMapped = strings.Contains(x, "invariant")
 		c.SplitDisabledOut = strings.Contains(x, "splitdisabled")
 		c.DisabledMappedPipeline = strings.Contains(x, "disabledmapped")
